@@ -61,7 +61,10 @@ package reconciler
 //@   property C16
 //@   flag nosafety
 //@   maypanic
+//@   requires incr != nil && incr.retries != nil && incr.retries.queue != nil && incr.retries.revQueue != nil
 //@   atcall (*incremental).processSingle@1 requires @not-before-retry-time ok && !tAfter(*item.retryAt, *now)
+//@   loop 1 invariant incr.retries != nil && incr.retries.queue != nil && incr.retries.revQueue != nil
+//@   ensures @reports-the-queue-low-watermark (result == 0 ==> len(incr.retries.revQueue.items) == 0 || incr.retries.revQueue.items[0].origRev == 0) && (result != 0 ==> len(incr.retries.revQueue.items) > 0 && result == incr.retries.revQueue.items[0].origRev)
 
 // Duration: min * 2^attempt, capped by max (floats treated as reals; math.Pow(2,x) is the
 // uninterpreted pow2r with pow2r(x) >= 1 for x >= 0 and monotone).
@@ -96,6 +99,28 @@ package reconciler
 //@   trusted
 //@   modifies H_reconciler_retries_waitTimer H_reconciler_retries_waitChan CH_closed
 
+// LowWatermark: zero only once the revision heap has been drained of stale entries and is empty;
+// otherwise the original revision of the heap's top item, which is the live retry entry of its
+// object (items[key] is that very item).
+//@ func (*retryPrioQueue).Len
+//@   property C16
+//@   pure
+//@   requires hq != nil
+//@   ensures result == len(hq.items)
+//@ func (*retryPrioQueue).Peek
+//@   property C16
+//@   flag nosafety
+//@   pure
+//@   requires hq != nil
+//@   ensures len(hq.items) > 0 ==> result == hq.items[0]
+//@ func (*retries).LowWatermark
+//@   property C16
+//@   flag nosafety
+//@   flag dyncall.objectToKey=pure
+//@   requires rq != nil && rq.revQueue != nil
+//@   ensures @zero-only-when-drained result == 0 ==> len(rq.revQueue.items) == 0 || rq.revQueue.items[0].origRev == 0
+//@   ensures @nonzero-is-top-live-item result != 0 ==> len(rq.revQueue.items) > 0 && result == rq.revQueue.items[0].origRev
+
 //@ func (*retries).Add
 //@   property C16
 //@   flag nosafety
@@ -111,10 +136,44 @@ package reconciler
 //@   flag nosafety
 //@   requires p != nil && !GH_held[addr(p.mu)]
 //@   ensures @monotone p.revision >= old(p.revision) && p.revision >= rev
+//@   ensures @revision-is-max p.revision == (rev > old(p.revision) ? rev : old(p.revision))
+//@   ensures @watermark-stored p.retryLowWatermark == retryLowWatermark
+//@   ensures @wakes-waiters-on-change (rev > old(p.revision) || retryLowWatermark != old(p.retryLowWatermark)) ==> closed(old(p.watch)) && p.watch != nil && fresh(p.watch) && !closed(p.watch)
+//@   ensures @quiet-otherwise !(rev > old(p.revision) || retryLowWatermark != old(p.retryLowWatermark)) ==> p.watch == old(p.watch) && unchanged(CH_closed)
 //@   ensures @unlocked !GH_held[addr(p.mu)]
 //@ func (*progressTracker).wait
 //@   property C16
 //@   flag nosafety
 //@   requires p != nil && !GH_held[addr(p.mu)]
 //@   ensures @reached result2 == nil ==> result0 >= rev
+//@   ensures @reports-current result0 == p.revision && result1 == p.retryLowWatermark
+//@   ensures @error-is-context-error result2 != nil ==> closed(doneChan(ctx))
 //@   loop 1 invariant !GH_held[addr(p.mu)]
+
+// ---------------------------------------------------------------------------
+// Pending ids (C15): commitStatus tells "only the status changed" from "the data changed" by the
+// pending id. Every constructor of a pending status draws a new id from the generator and the
+// result carries exactly that id - also for a StatusSet that has no per-reconciler entry yet.
+//@ ghostcomp GH_ids int
+//@ func nextID
+//@   trusted
+//@   modifies GH_ids
+//@   ensures GH_ids[nil] == old(GH_ids)[nil] + 1 && result == GH_ids[nil]
+//@ func StatusSet.Pending
+//@   property C15
+//@   flag nosafety
+//@   ensures @new-pending-id GH_ids[nil] == old(GH_ids)[nil] + 1 && result.id == GH_ids[nil]
+//@   ensures @all-entries-pending len(result.statuses) == len(s.statuses) && (forall i int :: 0 <= i && i < len(result.statuses) ==> *result.statuses[i].Kind == StatusKindPending && result.statuses[i].ID == result.id)
+//@   loop 1 invariant 0 <= $i && $i <= len(s.statuses) && (forall j int :: 0 <= j && j < $i ==> *s.statuses[j].Kind == StatusKindPending && s.statuses[j].ID == s.id)
+//@ func StatusPending
+//@   property C15
+//@   flag nosafety
+//@   ensures @new-pending-id GH_ids[nil] == old(GH_ids)[nil] + 1 && result.ID == GH_ids[nil] && result.Kind == StatusKindPending
+//@ func StatusRefreshing
+//@   property C15
+//@   flag nosafety
+//@   ensures @new-pending-id GH_ids[nil] == old(GH_ids)[nil] + 1 && result.ID == GH_ids[nil] && result.Kind == StatusKindRefreshing
+//@ func NewStatusSet
+//@   property C15
+//@   flag nosafety
+//@   ensures @new-pending-id GH_ids[nil] == old(GH_ids)[nil] + 1 && result.id == GH_ids[nil]
